@@ -163,3 +163,68 @@ def m_vec_into_iter_next(ex, m, args, tys, st, fn):
 def m_option_is_some_any(ex, m, args, tys, st, fn):
     o = ex.deref(args[0])
     return [(st, tm.eq(o.tag, I(1)))]
+
+
+# ---- vec_deque.iter().take(k).take_while(closure).count()
+@model(r"^VecDeque::<.*>::iter$")
+def m_deque_iter(ex, m, args, tys, st, fn):
+    return [(st, Agg([args[0], I(0)]))]
+
+
+@model(r"^<(?:std::collections::)?vec_deque::Iter<'_, .*> as (?:std::iter::)?Iterator>::take$")
+def m_deque_iter_take(ex, m, args, tys, st, fn):
+    return [(st, Agg([args[0], args[1]]))]
+
+
+@model(r"^<(?:std::iter::)?Take<(?:std::collections::)?vec_deque::Iter<'_, .*>> as (?:std::iter::)?Iterator>::take_while::<.*>$")
+def m_take_take_while(ex, m, args, tys, st, fn):
+    return [(st, Agg([args[0], args[1]]))]
+
+
+def closure_fn(ex, clo):
+    for f in ex.prog.fns:
+        if f.kind == "fn" and "{closure" in f.path and f.params and ("{closure@" + clo.loc + "}") in f.params[0][1]:
+            return f
+    raise Unsupported("closure body not found in the dump: " + clo.loc)
+
+
+@model(r"^<(?:std::iter::)?TakeWhile<(?:std::iter::)?Take<(?:std::collections::)?vec_deque::Iter<'_, .*>>, .*> as (?:std::iter::)?Iterator>::count$")
+def m_take_while_count(ex, m, args, tys, st, fn):
+    from .execmir import Cell
+    take, clo = args[0].fields
+    it, k = take.fields
+    r, start = it.fields
+    if not k.is_const:
+        raise Unsupported("take(k) with symbolic k")
+    elems = _elems(ex, r)
+    f = closure_fn(ex, clo)
+    out = []
+
+    def go(state, i, n):
+        if i >= min(len(elems), int(start.val) + int(k.val)):
+            out.append((state, I(n)))
+            return
+        elem_ref = Ref(r.cell, tuple(r.path) + (i,))
+        for s2, keep in ex.exec_fn(f, [Ref(Cell(clo)), Ref(Cell(elem_ref))], state, 1):
+            if keep.is_const:
+                if keep.val:
+                    go(s2, i + 1, n + 1)
+                else:
+                    out.append((s2, I(n)))
+            else:
+                raise Unsupported("take_while predicate with a symbolic answer")
+    go(st, int(start.val), 0)
+    return out
+
+
+# ---- RefCell<T> modelled as a one-field wrapper Agg([inner]); borrows are plain references to the inner value
+@model(r"^(?:std::cell::)?RefCell::<.*>::borrow(?:_mut)?$")
+def m_refcell_borrow(ex, m, args, tys, st, fn):
+    r = args[0]
+    return [(st, Ref(r.cell, tuple(r.path) + (0,)))]
+
+
+@model(r"^<(?:std::cell::)?Ref(?:Mut)?<'_, .*> as (?:std::ops::)?Deref(?:Mut)?>::deref(?:_mut)?$")
+def m_refcell_guard_deref(ex, m, args, tys, st, fn):
+    g = ex.deref(args[0]) if isinstance(args[0], Ref) and isinstance(ex.deref(args[0]), Ref) else args[0]
+    return [(st, g)]
